@@ -537,6 +537,25 @@ func (c *Ctx) c13Commit(m *pop3Model) {
 			}
 		})
 	}
+	for _, fn := range m.fns {
+		fn := fn
+		eng.EachInstr(fn, func(in ssa.Instruction) {
+			g, isGo := in.(*ssa.Go)
+			if !isGo || !c.P.SyncReach(m.root)[fn] {
+				return // only go statements executed by the session itself
+			}
+			callee := eng.StaticCallee(g.Common())
+			if callee == nil {
+				if mc, ok := g.Call.Value.(*ssa.MakeClosure); ok {
+					callee, _ = mc.Fn.(*ssa.Function)
+				}
+			}
+			if callee != nil && (callee == m.deleteProc || reachesSync(callee, m.deleteProc)) {
+				nCalls++
+				r.Bad("C13/COMMIT", "delete-processor-call@"+shortFn(fn), p.InstrPos(in), "the delete processor is started with a go statement: the session ends (and a draining server exits) while the marked messages are still in the store, and a process exit in that window loses the deletions")
+			}
+		})
+	}
 	r.Floor("C13/COMMIT", "calls of the delete processor", nCalls, 1)
 	// handlers are dispatched only on the success edge of the read
 	var readCall *ssa.Call
@@ -632,6 +651,61 @@ func (c *Ctx) c13Marks(m *pop3Model, decs []eng.FieldStore) {
 			}
 		})
 		r.Check(paired, "C13/MARKS", "count-decrement@"+shortFn(d.Fn), p.InstrPos(d.Store), "msgCount-- is paired with retain[i] = false", "msgCount is decremented without marking a message: STAT/LIST headers disagree with the listing")
+	}
+	// the retain reset restores every session field the mark changes
+	if m.retainReset != nil {
+		resetFields := map[*types.Var]bool{}
+		for g := range c.P.SyncReach(m.retainReset) {
+			eng.EachInstr(g, func(in ssa.Instruction) {
+				if st, ok := in.(*ssa.Store); ok {
+					if fa, ok := st.Addr.(*ssa.FieldAddr); ok {
+						resetFields[eng.FieldOfAddr(fa)] = true
+					}
+				}
+			})
+		}
+		for _, fn := range m.fns {
+			fn := fn
+			eng.EachInstr(fn, func(in ssa.Instruction) {
+				st, ok := in.(*ssa.Store)
+				if !ok {
+					return
+				}
+				ia, ok := st.Addr.(*ssa.IndexAddr)
+				if !ok || !eng.SameField(eng.LoadedField(ia.X), m.fRetain) {
+					return
+				}
+				if b, isC := eng.ConstBool(st.Val); !isC || b {
+					return
+				}
+				// session fields stored in the marking block
+				var missing []string
+				for _, in2 := range st.Block().Instrs {
+					s2, ok := in2.(*ssa.Store)
+					if !ok {
+						continue
+					}
+					fa, ok := s2.Addr.(*ssa.FieldAddr)
+					if !ok {
+						continue
+					}
+					f := eng.FieldOfAddr(fa)
+					if f == nil || !sameNamedStruct(fa.X.Type(), m.fRetain) {
+						continue
+					}
+					if !resetFields[f] {
+						missing = append(missing, f.Name())
+					}
+				}
+				sort.Strings(missing)
+				cons := "reset-restores@" + shortFn(fn)
+				if len(missing) > 0 {
+					r.Bad("C13/MARKS", cons, p.InstrPos(in), "marking a message also changes Session.%s, which the retain reset %s never restores: after DELE … RSET the session's views disagree (e.g. STAT against LIST)", strings.Join(missing, ", "), shortFn(m.retainReset))
+				} else {
+					r.Ok("C13/MARKS", cons, p.InstrPos(in), "every session field changed together with the mark is rebuilt by %s", shortFn(m.retainReset))
+				}
+			})
+		}
 	}
 	// RSET reaches the retain reset
 	edges := keywordEdges(m.fns, map[string]bool{"RSET": true})
@@ -1173,4 +1247,21 @@ func (m *pop3Model) viewMethod(fn *ssa.Function, send *ssa.Call, at *ssa.BasicBl
 		}
 	}
 	return ""
+}
+
+// sameNamedStruct: t (a pointer to a struct) is the struct that declares field f.
+func sameNamedStruct(t types.Type, f *types.Var) bool {
+	if pt, ok := t.Underlying().(*types.Pointer); ok {
+		t = pt.Elem()
+	}
+	st, ok := t.Underlying().(*types.Struct)
+	if !ok {
+		return false
+	}
+	for i := 0; i < st.NumFields(); i++ {
+		if st.Field(i) == f || st.Field(i).Origin() == f.Origin() {
+			return true
+		}
+	}
+	return false
 }
